@@ -1048,6 +1048,7 @@ class World:
             setattr(obj, attr, wrapper)
 
         wrap_quiet(sv.fsm, 'on_timer_event', 'fsm_timer')
+        wrap_quiet(sv.fsm, 'on_process_state_event', 'fsm_process_event')
         wrap_quiet(sv.context, 'on_tick_event', 'ctx_tick')
         wrap_quiet(sv.context, 'on_local_tick_event', 'ctx_local_tick')
         wrap_quiet(sv.context, 'on_timer_event', 'ctx_timer')
